@@ -136,7 +136,7 @@ func main() {
 		}
 	}
 	strs := allStrings(*max)
-	nums := []float64{math.NaN(), math.Inf(-1), -2, -0.5, math.Copysign(0, -1), 0, 0.49999999999999994, 0.5, 1, 1.5, 2, 2.5, 3, 4, 1e10, math.Inf(1)}
+	nums := []float64{math.NaN(), math.Inf(-1), -2, -0.5, math.Copysign(0, -1), 0, 0.49999999999999994, 0.5, 1, 1.5, 2, 2.5, 3, 4, 1e10, math.Inf(1), -1e20, -1e19, 1e19} // the last three: start+length beyond the int64 range (seed C07-r3-2)
 	sub3 := xsel.MustBuildExpr(`substring($s, $p, $l)`)
 	sub2 := xsel.MustBuildExpr(`substring($s, $p)`)
 	slen := xsel.MustBuildExpr(`string-length($s)`)
